@@ -102,7 +102,8 @@ MM(m) == [ty |-> m.ty, ifc |-> m.ifc, mem |-> m.mem, path |-> m.path, dst |-> m.
 
 \* W: a "world" record [cs, un, qs, rl, mn] = connection states, unique names, registry, rule table, monitor
 \* filters, against which a message is routed (actions route against the state they have just produced).
-World(cs, un, qs, rl, mn) == [cs |-> cs, un |-> un, qs |-> qs, rl |-> rl, mn |-> mn]
+\* (pol: the security policy in force -- part of the world because ReloadConfig answers under the NEW policy)
+World(cs, un, qs, rl, mn) == [cs |-> cs, un |-> un, qs |-> qs, rl |-> rl, mn |-> mn, pol |-> cfg.policy]
 Now == World(cst, uname, queue, rules, mon)
 
 \* monitors that want m.  A connection is served copies as soon as it holds monitor filters (they are installed
@@ -127,7 +128,7 @@ RuleRecipients(W, m, src, adr) ==
 \* if refused; monitors then see the made-up error too)
 FromBus(W, s, m) ==
   Capture(W, m, NoSlot, s)
-  \o (IF W.cs[s] # "active" \/ CanReceive(cfg.policy, Cred(s), m, m.rs # 0, {BUS}, FALSE)
+  \o (IF W.cs[s] # "active" \/ CanReceive(W.pol, Cred(s), m, m.rs # 0, {BUS}, FALSE)
       THEN <<To(s, m)>>
       ELSE Capture(W, ErrReply(BUS, m.ser, E_AccessDenied), NoSlot, NoSlot))
 
@@ -135,7 +136,7 @@ FromBus(W, s, m) ==
 BroadcastFromBus(W, m) ==
   LET R == RuleRecipients(W, m, NoSlot, NoSlot)
       sq == SeqOfSet(R)
-      one(r) == IF CanReceive(cfg.policy, Cred(r), m, FALSE, {BUS}, FALSE) THEN <<To(r, m)>>
+      one(r) == IF CanReceive(W.pol, Cred(r), m, FALSE, {BUS}, FALSE) THEN <<To(r, m)>>
                 ELSE Capture(W, ErrReply(BUS, m.ser, E_AccessDenied), NoSlot, NoSlot)
       RECURSIVE go(_)
       go(i) == IF i > Len(sq) THEN <<>> ELSE one(sq[i]) \o go(i + 1) IN
@@ -216,8 +217,8 @@ DriverGate(s, call) ==
 EavesCopies(W, s, m, adr) ==
   LET R == RuleRecipients(W, m, s, adr)
       sq == SeqOfSet(R)
-      ok(r) == /\ CanSend(cfg.policy, Cred(s), m, FALSE, TRUE, HeldNames(W.qs, W.un, r))
-               /\ CanReceive(cfg.policy, Cred(r), m, FALSE, HeldNames(W.qs, W.un, s), m.dst # <<>> /\ r # adr)
+      ok(r) == /\ CanSend(W.pol, Cred(s), m, FALSE, TRUE, HeldNames(W.qs, W.un, r))
+               /\ CanReceive(W.pol, Cred(r), m, FALSE, HeldNames(W.qs, W.un, s), m.dst # <<>> /\ r # adr)
       one(r) == IF ok(r) THEN <<To(r, m)>> ELSE Capture(W, ErrReply(UNm(W, s), m.ser, E_AccessDenied), NoSlot, s)
       RECURSIVE go(_)
       go(i) == IF i > Len(sq) THEN <<>> ELSE one(sq[i]) \o go(i + 1) IN
@@ -312,6 +313,21 @@ Query(s, ser, fl, kind, n) ==
                                 THEN /\ out' = Capture(Now, call, s, NoSlot) \o EavesCopies(Now, s, call, NoSlot)
                                      /\ UNCHANGED <<act, fdx, cfg, cst, dying, uid, uname, everNames, queue, rules, pend, mon>>
                                 ELSE Answer(s, call, Reply(me, ser, <<>>, <<>>, "exact"))
+
+\* ---- ReloadConfig (bus_context_reload_config): the configuration file is read again; limits and policy are replaced
+\* at once for everybody (every completed connection gets a fresh client policy), nothing that exists is evicted.
+\* The call itself was admitted under the old policy; its acknowledgement and the eavesdroppers' copies of it are
+\* judged by the new one.  c: the new configuration (same shape as cfg; the epoch counter is the model's own).
+ReloadConfig(s, ser, fl, c) ==
+  LET call == DriverCall(s, ser, BUS, S_ReloadConfig, <<>>, <<>>, fl)
+      W == [Now EXCEPT !.pol = c.policy] IN
+  /\ CanTalk(s)
+  /\ IF ~DriverGate(s, call) THEN AnswerErr(s, call, E_AccessDenied)
+     ELSE /\ cfg' = [c EXCEPT !.epoch = cfg.epoch]
+          /\ out' = Capture(Now, call, s, NoSlot)
+                    \o (IF NoReplyFlag(call) THEN <<>> ELSE FromBus(W, s, Reply(DstOf(s), ser, <<>>, <<>>, "exact")))
+                    \o EavesCopies(W, s, call, NoSlot)
+          /\ UNCHANGED <<act, fdx, cst, dying, uid, uname, everNames, queue, rules, pend, mon>>
 
 \* driver artefact: a client that is about to close first makes sure its earlier messages were dispatched (Ping
 \* round trip) and stops reading the moment the reply arrives; the two are one step of the model
@@ -584,8 +600,8 @@ RuleCopiesD(W, s, m, adr, D) ==
       sq == SeqOfSet(R)
       ok(r) == /\ m.ty \in 1..4
                /\ (m.nfd = 0 \/ fdx.cap[r])
-               /\ CanSend(cfg.policy, Cred(s), m, FALSE, TRUE, HeldNames(W.qs, W.un, r))
-               /\ CanReceive(cfg.policy, Cred(r), m, FALSE, HeldNames(W.qs, W.un, s), m.dst # <<>>)
+               /\ CanSend(W.pol, Cred(s), m, FALSE, TRUE, HeldNames(W.qs, W.un, r))
+               /\ CanReceive(W.pol, Cred(r), m, FALSE, HeldNames(W.qs, W.un, s), m.dst # <<>>)
       one(r) == IF ok(r) THEN <<To(r, m)>> ELSE Capture(W, ErrReply(UNm(W, s), m.ser, E_AccessDenied), NoSlot, s)
       RECURSIVE go(_)
       go(i) == IF i > Len(sq) THEN <<>> ELSE one(sq[i]) \o go(i + 1) IN
